@@ -6,7 +6,8 @@ EXPLANATION = ('Per-site safety obligations over all of include/: (R05.1) every 
                'size, statically (format and constant precision) or by a dominating upper-bound test; (R05.3) std::basic_regex '
                'constructions from run-time patterns sit inside a try with a catch that converts std::regex_error; (R05.5) slice loops '
                'whose induction variable advances by a run-time step guard the addition against overflow and index the array only under '
-               'a bound test; further rules under coverage.rules.')
+               'a bound test; (R05.6) cursor-bounds typestate of the character scanners; (R05.7) stack-depth typestate of the push-down '
+               'expression compilers; further rules under coverage.rules.')
 NOT_DECIDED = 'termination, absence of all undefined behaviour, leaks in general, assertion freedom (whole-program claims)'
 
 def parent_map(root):
@@ -550,6 +551,107 @@ def r05_2(chk, tier):
                          '__builtin_unreachable() is the default of a switch over `%s` (%s) whose value set is not bounded by any dominating test' % (optxt[:40], tn2), facts_, fn['q'])
     chk.require(n >= 8, 'R05.2: only %d unreachable sites found' % n)
 
+# ------------------------------------------------------------------------------------------------ R05.6 / R05.7
+# The hand-written scanners that walk a raw character pointer towards an end pointer (frozen table: unit, header, functions or None = all).
+SCANNERS = [
+    ('core', 'jsoncons/json_parser.hpp', None),
+    ('core', 'jsoncons/source.hpp', None),
+    ('csv', 'jsoncons_ext/csv/csv_parser.hpp', None),
+    ('jsonpath', 'jsoncons_ext/jsonpath/jsonpath_parser.hpp', None),
+    ('jsonpath', 'jsoncons_ext/jsonpath/json_location.hpp', None),
+    ('jmespath', 'jsoncons_ext/jmespath/jmespath.hpp', None),
+    ('patch', 'jsoncons_ext/jsonpointer/jsonpointer.hpp', {'parse'}),
+    ('toon', 'jsoncons_ext/toon/toon_reader.hpp', {'unescape_string'}),
+]
+# One dereference the local rule cannot discharge and that is safe for a non-local reason (confirmed by reading):
+# jmespath compile(), state expect_in_or_comma calls advance_past_space_character() and then reads *p_.  The state is only ever
+# uncovered by rhs_expression popping itself on a character it does not handle, and rhs_expression handles (consumes) white space itself,
+# so *p_ is never white space here, the call does not move p_, and the loop head has established p_ < input_end_.
+CURSOR_EXEMPT = {('jmespath.hpp', 'compile', 'expect_in_or_comma')}
+
+def r05_6(chk, tier, units=None, floor=250):
+    from .. import ptrbounds as PB
+    chk.rule('R05.6', 'cursor bounds: in the character scanners every dereference *p, *(p+k), p[k] of a cursor is reached only with a '
+                      'dominating comparison against the end pointer that leaves at least k+1 characters since the last advance '
+                      '(must-dataflow over the CFG, entry margins of helpers taken from all their call sites)', floor=floor)
+    n = 0
+    for unit, header, only in SCANNERS:
+        if units is not None and unit not in units: continue
+        facts = F.load([unit], tier)
+        if unit not in chk.units: chk.units.append(unit)
+        fns = {}
+        for f in facts.functions:
+            if f['file'].endswith(header) and f.get('body') is not None and not f.get('dep') and (only is None or f['n'] in only):
+                fns.setdefault((f['file'], f['l']), f)
+        chk.require(fns, 'R05.6: no function of %s in the facts' % header)
+        res, names = PB.analyse_group(facts, list(fns.values()))
+        chk.require(names, 'R05.6: no cursor found in %s' % header)
+        en = None
+        for an in res:
+            if not an.derefs: continue
+            fn = an.fn
+            chk.analysed(fn)
+            bad = {}
+            for node, name, need, have, line in an.reports:
+                # named exemption: dominated by the case edge of the exempt state
+                ex = False
+                for (hf, fnm, state) in CURSOR_EXEMPT:
+                    if fn['file'].endswith(hf) and fn['n'] == fnm:
+                        for a, lab, e in an.g.guards(node):
+                            if e.src is not None and e.src.kind == 'switch' and isinstance(lab, tuple) and lab[0] == 'case':
+                                if en is None: en = U.enum_value_names(U.enum_by_suffix(facts, '::expr_state'))
+                                if en.get(lab[1]) == state: ex = True
+                if ex:
+                    chk.note('R05.6: exempt site %s:%s (%s), see CURSOR_EXEMPT' % (fn['file'], line, name)); continue
+                bad.setdefault((name, need), (have, line))
+            n += an.derefs
+            site = U.site(fn, 'cursor dereferences')
+            if not bad:
+                for i in range(an.derefs): chk.ok('R05.6', '%s #%d' % (site, i), {'function': fn['q'], 'dereferences': an.derefs, 'cursors': sorted(names)} if i == 0 else None)
+            else:
+                for i in range(an.derefs - len(bad)): chk.ok('R05.6', '%s #%d' % (site, i), None)
+                for (name, need), (have, line) in sorted(bad.items(), key=lambda kv: kv[1][1]):
+                    chk.fail('R05.6', U.site(fn, 'deref of %s needing %d' % (name, need)), fn['file'], line,
+                             '%s: `%s` is dereferenced at offset %d here, but the comparisons that dominate this point guarantee only %d character(s) before the end pointer' % (
+                                 fn['n'], name, need - 1, have), {'cursor': name, 'needed': need, 'established': have}, fn['q'])
+    return n
+
+# push-down expression compilers: (unit, header, function, stack variable)
+PUSHDOWN = [
+    ('jmespath', 'jsoncons_ext/jmespath/jmespath.hpp', 'compile', 'state_stack'),
+    ('jsonpath', 'jsoncons_ext/jsonpath/jsonpath_parser.hpp', 'compile', 'state_stack_'),
+]
+
+def r05_7(chk, tier, units=None, floor=200):
+    from .. import ptrbounds as PB
+    chk.rule('R05.7', 'push-down parsers: every back()/pop_back() of the state stack of the JMESPath and JSONPath compilers is reached only '
+                      'with a dominating non-emptiness fact (loop condition !empty(), size() > k) that pushes and pops since then have not used up', floor=floor)
+    for unit, header, fname, stack in PUSHDOWN:
+        if units is not None and unit not in units: continue
+        facts = F.load([unit], tier)
+        if unit not in chk.units: chk.units.append(unit)
+        fns = {}
+        for f in facts.functions:
+            if f['file'].endswith(header) and f['n'] == fname and f.get('body') is not None and not f.get('dep'):
+                fns.setdefault((f['file'], f['l']), f)
+        chk.require(fns, 'R05.7: %s::%s not found' % (header, fname))
+        tot = 0
+        for fn in fns.values():
+            an = PB.StackDepth(fn, fn['_types'], stack).run()
+            if not an.uses: continue
+            chk.analysed(fn)
+            tot += an.uses
+            bad = {}
+            for node, nm, d, line in an.reports: bad.setdefault(line, nm)
+            site = U.site(fn, stack)
+            for i in range(an.uses - len(bad)): chk.ok('R05.7', '%s #%d' % (site, i), {'function': fn['q'], 'uses': an.uses} if i == 0 else None)
+            for line, nm in sorted(bad.items()):
+                # one violation record per function (same site key): the cause is a missing non-emptiness fact, the sites share it
+                chk.fail('R05.7', U.site(fn, '%s non-empty' % stack), fn['file'], min(bad),
+                         '%s: %s.%s() at line %s (and %d more uses) is reached with no dominating fact that the stack is non-empty: an input that pops the last state makes the next use undefined' % (
+                             fn['n'], stack, bad[min(bad)], min(bad), len(bad) - 1), {'unguarded_uses': len(bad), 'first_lines': sorted(bad)[:10]}, fn['q'])
+        chk.require(tot >= 50, 'R05.7: only %d stack uses found in %s' % (tot, header))
+
 def run(chk, tier, only_rule=None):
     chk.explanation = EXPLANATION
     chk.not_decided = NOT_DECIDED
@@ -559,3 +661,5 @@ def run(chk, tier, only_rule=None):
     r05_3(chk, tier)
     r05_5(chk, tier)
     r05_2(chk, tier)
+    r05_6(chk, tier)
+    r05_7(chk, tier)
